@@ -9,7 +9,7 @@ namespace Pydjinni.Gen
 
 /-- `CppBaseType.namespace` -/
 def cppNamespace (c : CppCfg) (ns : List String) : String :=
-  "::".intercalate (c.ns ++ ns.map (convert c.nsStyle))
+  joinS "::" (c.ns ++ ns.map (convert c.nsStyle))
 
 /-- `CppBaseType.typename` / `CppRecord.typename` (both use the *derived* name) -/
 def cppUserTypename (c : CppCfg) (u : UInfo) : String :=
@@ -23,25 +23,33 @@ def cppByValue : TDef → Bool
   | .user u => u.prim == .enum || u.prim == .flags
   | .func _ _ _ _ _ => false
 
+/-! The three steps of `_type_specifier` on an already computed name: generic arguments, the
+    optional / interface wrapper, the parameter-position wrapper. -/
+
+/-- interfaces are shared pointers (wrapped in the configured `not_null` where requested and not optional);
+    other optional types except functions are `std::optional` -/
+def cppWrap (c : CppCfg) (prim : Prim) (optional useNotNull : Bool) (out : String) : String :=
+  if prim == .interface then
+    let o := "std::shared_ptr<" ++ out ++ ">"
+    match c.notNull with
+    | some nn => if useNotNull && !nn.isEmpty && !optional then nn ++ "<" ++ o ++ ">" else o
+    | none => o
+  else if optional && prim != .function then "std::optional<" ++ out ++ ">" else out
+
+/-- `f"const {output} &" if is_parameter and not by_value else output` -/
+def cppPlace (byValue isParam : Bool) (out : String) : String :=
+  if isParam && !byValue then "const " ++ out ++ " &" else out
+
 mutual
 /-- `type_def.cpp.typename` -/
 def cppTypename (c : CppCfg) : TDef → String
   | .builtin b => b.cppTypename
   | .user u => cppUserTypename c u
-  | .func _ _ _ params ret => "std::function<" ++ cppSpecO c ret ++ "(" ++ ",".intercalate (cppSpecs c params) ++ ")>"
+  | .func _ _ _ params ret => "std::function<" ++ cppSpecO c ret ++ "(" ++ joinS "," (cppSpecs c params) ++ ")>"
 /-- `_type_specifier(type_ref, is_parameter, use_notnull)` -/
 def cppSpec (c : CppCfg) : RType → Bool → Bool → String
   | .mk d args optional, isParam, useNotNull =>
-    let out := cppTypename c d
-    let out := if args.isEmpty then out else out ++ "<" ++ ", ".intercalate (cppSpecs c args) ++ ">"
-    let out :=
-      if d.prim == .interface then
-        let o := "std::shared_ptr<" ++ out ++ ">"
-        match c.notNull with
-        | some nn => if useNotNull && !nn.isEmpty && !optional then nn ++ "<" ++ o ++ ">" else o
-        | none => o
-      else if optional && d.prim != .function then "std::optional<" ++ out ++ ">" else out
-    if isParam && !cppByValue d then "const " ++ out ++ " &" else out
+    cppPlace (cppByValue d) isParam (cppWrap c d.prim optional useNotNull (applyArgs (cppTypename c d) (cppSpecs c args)))
 /-- the recursive calls `self._type_specifier(parameter)` (defaults: not a parameter, no not_null) -/
 def cppSpecs (c : CppCfg) : List RType → List String
   | [] => []
@@ -64,8 +72,8 @@ def cppHeader (c : CppCfg) : TDef → String
   | .user u =>
     let base := u.prim == .record && u.targets.contains "cpp"
     let fname := if base then convert c.fileStyle (u.name ++ "_base") else convert c.fileStyle u.name
-    "/".intercalate (u.ns ++ [fname ++ "." ++ c.headerExt])
-  | .func u _ _ _ _ => "/".intercalate (u.ns ++ [convert c.fileStyle u.name ++ "." ++ c.headerExt])
+    joinS "/" (u.ns ++ [fname ++ "." ++ c.headerExt])
+  | .func u _ _ _ _ => joinS "/" (u.ns ++ [convert c.fileStyle u.name ++ "." ++ c.headerExt])
 
 /-- `CppMethod.type_spec` -/
 def cppMethodRet (c : CppCfg) (m : MethodD) : String :=
@@ -89,6 +97,9 @@ def cppField (c : CppCfg) (f : FieldD) : MemberS := { ty := cppSpec c f.ty false
 def cppMethod (c : CppCfg) (m : MethodD) : MethodS :=
   { pre := cppPrefix m, ret := cppMethodRet c m, name := convert c.methodStyle m.name,
     params := m.params.map (cppParam c), post := cppPostfix m }
+
+def cppCode (c : CppCfg) (k : CodeD) : CodeS :=
+  { name := convert c.tyStyle k.name, fields := k.params.map (cppParam c), ctor := k.params.map (cppParam c) }
 
 /-- `CppRecord.name` -/
 def cppDeclName (c : CppCfg) (u : UInfo) : String :=
@@ -119,6 +130,6 @@ def cppSkel (c : CppCfg) : Decl → DeclS
     { DeclS.empty with
       kind := "error", name := cppDeclName c u, scope := cppNamespace c u.ns,
       -- `const {{ parameter.cpp.type_spec }} name;` — the parameter-position type is used for the member as well
-      codes := codes.map (fun k => { name := convert c.tyStyle k.name, fields := k.params.map (cppParam c), ctor := k.params.map (cppParam c) }) }
+      codes := codes.map (cppCode c) }
 
 end Pydjinni.Gen
